@@ -24,17 +24,23 @@ func runC10(c *Ctx) {
 	key := "protocol.(*Protocol).sendLoop"
 	maxSeg := c.ConstInt("muxer", "SegmentMaxPayloadLength")
 	var nsCall ssa.CallInstruction
-	for _, ci := range allCalls(sl) {
-		if calleeName(ci.Common()) == "muxer.NewSegment" {
-			if nsCall != nil {
-				c.Bad("segment-cut", key+":multiple", ci.Pos(), "more than one NewSegment call in sendLoop")
+	top := sl
+	for _, f := range closureFuncs(top, 2) {
+		for _, ci := range allCalls(f) {
+			if calleeName(ci.Common()) == "muxer.NewSegment" {
+				if nsCall != nil {
+					c.Bad("segment-cut", key+":multiple", ci.Pos(), "more than one NewSegment call in sendLoop")
+				}
+				nsCall = ci
 			}
-			nsCall = ci
 		}
 	}
 	if nsCall == nil {
 		c.Undecided("sendLoop: no muxer.NewSegment call")
 	}
+	// the segmentation loop may live in a helper of sendLoop: the rules below are about the function holding it
+	sl = nsCall.Parent()
+	var bufArgs []ssa.Value // what sendLoop passes for the helper's buffer parameter
 	prefix, ok := nsCall.Common().Args[1].(*ssa.Slice)
 	if !ok || prefix.Low != nil || prefix.High == nil {
 		c.Bad("segment-cut", key+":prefix", nsCall.Pos(), "segment payload is %s, not a prefix buffer.Bytes()[:L]", desc(nsCall.Common().Args[1]))
@@ -49,6 +55,28 @@ func runC10(c *Ctx) {
 		return call.Call.Args[0]
 	}
 	buf := bufOf(prefix.X)
+	if sl != top {
+		cands := []ssa.Value{buf}
+		if phi, ok := buf.(*ssa.Phi); ok {
+			cands = append(cands, phi.Edges...)
+		}
+		for _, cv := range cands {
+			bp, ok := cv.(*ssa.Parameter)
+			if !ok {
+				continue
+			}
+			for i, q := range sl.Params {
+				if q == bp {
+					for _, ci := range callersInPkg(sl) {
+						bufArgs = append(bufArgs, ci.Common().Args[i])
+					}
+				}
+			}
+		}
+		if len(bufArgs) == 0 {
+			c.Undecided("sendLoop: the segmentation helper's buffer is not traced to an argument of its caller")
+		}
+	}
 	c.Check(buf != nil, "segment-cut", key+":prefix", nsCall.Pos(), "segment payload = payloadBuf.Bytes()[:L]", "segment payload is not a prefix of the payload buffer: "+desc(prefix.X))
 	// L = min(Len(buf), max)
 	okL := false
@@ -79,9 +107,24 @@ func runC10(c *Ctx) {
 		}
 	}
 	// the segments alias the buffer's backing array after hand-off: the buffer must be fresh per batch and never rewound
-	for _, ci := range allCalls(sl) {
+	isBuf := func(v ssa.Value) bool {
+		if v == buf || samePhiFamily(v, buf) {
+			return true
+		}
+		for _, a := range bufArgs {
+			if v == a || samePhiFamily(v, a) {
+				return true
+			}
+		}
+		return false
+	}
+	var slCalls []ssa.CallInstruction
+	for _, f := range closureFuncs(top, 2) {
+		slCalls = append(slCalls, allCalls(f)...)
+	}
+	for _, ci := range slCalls {
 		cn := calleeName(ci.Common())
-		if (cn == "bytes.(*Buffer).Reset" || cn == "bytes.(*Buffer).Truncate") && buf != nil && (ci.Common().Args[0] == buf || samePhiFamily(ci.Common().Args[0], buf)) {
+		if (cn == "bytes.(*Buffer).Reset" || cn == "bytes.(*Buffer).Truncate") && buf != nil && isBuf(ci.Common().Args[0]) {
 			c.Bad("segment-buffer-fresh", key+":"+cn, ci.Pos(), "the payload buffer is rewound and reused although segments handed to the muxer still alias its bytes: a queued segment is overwritten by the next batch")
 		}
 	}
@@ -106,7 +149,17 @@ func runC10(c *Ctx) {
 			}
 		}
 	}
-	walkFresh(buf, 0)
+	if len(bufArgs) > 0 {
+		freshOK = true
+		for _, a := range bufArgs {
+			all := freshOK
+			freshOK = false
+			walkFresh(a, 0)
+			freshOK = freshOK && all
+		}
+	} else {
+		walkFresh(buf, 0)
+	}
 	c.Check(freshOK, "segment-buffer-fresh", key, nsCall.Pos(), "each batch is assembled in a buffer allocated inside the send loop", "the payload buffer outlives a batch: segments still queued in the muxer alias bytes that the next batch overwrites")
 	if rem == nil && nextCall != nil {
 		okNext := nextCall.Common().Args[1] == L && (nextCall.Common().Args[0] == buf || samePhiFamily(nextCall.Common().Args[0], buf))
@@ -132,7 +185,10 @@ func runC10(c *Ctx) {
 	// loop continues iff Len(buf) > L
 	okCont := false
 	for _, ef := range edgeFacts(sl) {
-		if strings.HasPrefix(ef.Fact, "call:bytes.(*Buffer).Len(") && strings.Contains(ef.Fact, ") > call:min(") {
+		isLen := func(x string) bool { return strings.HasPrefix(x, "call:bytes.(*Buffer).Len(") }
+		isL := func(x string) bool { return x == desc(L) }
+		// L = min(Len, max) ≤ Len (checked above), so Len ≠ L says the same as Len > L
+		if okL && (relIs(ef.Fact, isLen, ">", isL) || relIs(ef.Fact, isLen, "!=", isL)) {
 			// true edge must lead to the remainder block
 			if rem != nil && (ef.From.Succs[ef.Succ] == rem.Block() || ef.From.Succs[ef.Succ].Dominates(rem.Block())) {
 				okCont = true
@@ -215,7 +271,9 @@ func runC10(c *Ctx) {
 		// guard: n < Len() true-edge leads to remainder, false to Reset
 		okG := false
 		for _, ef := range edgeFacts(rl) {
-			if strings.Contains(ef.Fact, "#0 < call:bytes.(*Buffer).Len(") && strings.HasPrefix(ef.Fact, "call:cbor.Decode(") {
+			isN := func(x string) bool { return strings.HasPrefix(x, "call:cbor.Decode(") && strings.HasSuffix(x, "#0") }
+			isLen := func(x string) bool { return strings.HasPrefix(x, "call:bytes.(*Buffer).Len(") }
+			if relIs(ef.Fact, isN, "<", isLen) {
 				t := ef.From.Succs[ef.Succ]
 				f := ef.From.Succs[1-ef.Succ]
 				if (t == remR.Block() || t.Dominates(remR.Block())) && (f == reset.Block() || f.Dominates(reset.Block())) {
@@ -326,17 +384,10 @@ func samePhiFamily(a, b ssa.Value) bool {
 }
 
 func (c *Ctx) chanRecvOwners(rel, suffix string, receivers []string) {
-	in := func(k string) bool {
-		for _, x := range receivers {
-			if x == k || strings.HasPrefix(k, x+"$") {
-				return true
-			}
-		}
-		return false
-	}
 	n := 0
 	for _, fn := range c.pkgFuncs(rel) {
 		fk := ssaFuncKey(fn)
+		in := func(string) bool { return ownedBy(fn, receivers, 2) }
 		for _, b := range fn.Blocks {
 			for _, ins := range b.Instrs {
 				switch x := ins.(type) {
